@@ -71,6 +71,8 @@ def is_deliberate(e):
         return True
     if isinstance(e, AssertionError) and len(str(e)) > 15:
         return True
+    if isinstance(e, RuntimeError) and "valid point for the filter" in str(e):
+        return True
     return False
 
 
